@@ -83,6 +83,8 @@ def run_tlc(ctx, module, cfg, *, workers=8, simulate=None, depth=None, env=None,
             continue_=False, coverage=False, heap="12g", want_replay=True, extra=None, deque=False, max_replay=None,
             strata=None):
     """Runs TLC on spec/<module>.tla with spec/<cfg>; returns TlcResult. Scratch in ctx.work."""
+    if max_replay is None and strata is None and want_replay and getattr(ctx, "tier", "quick") == "thorough":
+        max_replay = 1000000     # behaviours beyond this are hash-sampled: 3.7 M replayed records cost 42 GB of Python objects
     wd = os.path.join(ctx.work, f"tlc-{module}-{len(ctx.tlc_runs)}")
     os.makedirs(wd, exist_ok=True)
     for f in os.listdir(SPEC):
